@@ -63,6 +63,7 @@ Proof.
   destruct (token_by_minunit s denom) as [tb|] eqn:Etb; [|discriminate].
   destruct (get (t_minunit tb) (registry s)) as [[target ratio]|] eqn:Er; [|discriminate].
   destruct (token_by_minunit s target) as [tm|] eqn:Etm; [|discriminate].
+  inv_if H.
   destruct (lossless_swap amt ratio (t_scale tb) (t_scale tm)) as [b mt] eqn:El.
   inv_if H. inv_bind H. inv_bind H. inv_bind H.
   exists tb, target, ratio, tm, b, mt, x, x0, x1. repeat split; assumption.
@@ -221,6 +222,7 @@ Proof.
     apply bank_mint_only, bank_only_fields in Hm. destruct Hm as (_ & _ & _ & _ & _ & He1 & _).
     apply bank_pay_only, bank_only_fields in Hp. destruct Hp as (_ & _ & _ & _ & _ & He2 & _).
     rewrite He2, He1. simpl. apply keys_set_NoDup. assumption.
+  - apply do_upgrade_inv in H. subst s'. assumption.
 Qed.
 
 Lemma step_erc20_nodup s m : NoDup (keys (erc20 s)) -> NoDup (keys (erc20 (step s m))).
@@ -330,7 +332,8 @@ Qed.
 (** ** sequences of conversions: native supply + ERC20 supply of a bound token is constant *)
 Definition conversion (m : msg) : bool :=
   match m with
-  | ToErc20 _ _ _ _ | FromErc20 _ _ _ _ | HookToNative _ _ _ _ | EvmMode _ => true
+  | ToErc20 _ _ _ _ | FromErc20 _ _ _ _ | HookToNative _ _ _ _ | EvmMode _
+  | Deploy _ _ _ _ _ | UpgradeErc20 _ _ => true
   | _ => false
   end.
 
@@ -350,20 +353,62 @@ Lemma token_by_minunit_same s s' d : tokens s' = tokens s -> minunits s' = minun
   token_by_minunit s' d = token_by_minunit s d.
 Proof. intros Ht Hm. unfold token_by_minunit, token_by_symbol. rewrite Ht, Hm. reflexivity. Qed.
 
+Lemma token_eq t t' : same_identity t t' -> same_gov t t' -> t_contract t' = t_contract t -> t' = t.
+Proof.
+  destruct t, t'. unfold same_identity, same_gov. simpl. intros (A & B & C & D) (E & F & G & H) I. subst. reflexivity.
+Qed.
+
+(** a token bound to a contract is left exactly as it is by every message that is not an edit /
+    transfer signed by its owner *)
+Lemma tracked_token_kept m s s' d t : IdInv s -> tok_step m s s' -> ~ authorised m t -> t_contract t <> 0 ->
+  token_by_minunit s d = Some t -> token_by_minunit s' d = Some t.
+Proof.
+  intros I TS Hna Hc0 Ht.
+  destruct (token_by_minunit_spec s d t I Ht) as (sy & Hm & Hg & Hsy & Hmu).
+  destruct TS as [Htk Hmn _ | sym0 t0 t0' Hg0 Htk Hmn Hid Hgov Hcs | t0 Hs0 Hm0 Htk Hmn _ _].
+  - rewrite (token_by_minunit_same _ _ _ Htk Hmn). assumption.
+  - unfold token_by_minunit, token_by_symbol. rewrite Hmn, Hm, Htk, get_set.
+    destruct (eqb sy sym0) eqn:E; [|assumption].
+    apply eqb_eq in E. subst sym0. rewrite Hg in Hg0. inversion Hg0; subst t0.
+    f_equal. apply token_eq; [assumption| |].
+    + destruct Hgov as [G|A]; [assumption|contradiction].
+    + destruct Hcs as [[Hc _]|(Hz & _)]; [assumption|contradiction].
+  - unfold token_by_minunit, token_by_symbol. rewrite Hmn, get_set.
+    destruct (eqb d (t_minunit t0)) eqn:E; [apply eqb_eq in E; subst d; congruence|].
+    rewrite Hm, Htk, get_set. destruct (eqb sy (t_symbol t0)) eqn:E2; [apply eqb_eq in E2; subst sy; congruence|assumption].
+Qed.
+
+Lemma do_deploy_frame s auth nm sym minu scale s' :
+  do_deploy s auth nm sym minu scale = ROk s' -> supply s' = supply s /\ erc20 s' = erc20 s /\ bank s' = bank s.
+Proof.
+  unfold do_deploy. intros H. inv_if H. cbv zeta in H.
+  destruct (has minu (minunits s)).
+  - destruct (token_by_minunit s minu) as [t|]; cbn [bind] in H; [|discriminate].
+    inv_if H. inv_if H. inv_if H. inv_if H. inversion H. simpl.
+    match goal with |- context [upsert_token ?a ?b] => destruct (upsert_fields a b) as (_ & _ & Hb & Hs & _ & He & _) end.
+    repeat split; assumption.
+  - destruct (has sym (tokens s)); cbn [bind] in H; [discriminate|].
+    inv_if H. inv_if H. inv_if H. inv_if H. inversion H. simpl.
+    match goal with |- context [upsert_token ?a ?b] => destruct (upsert_fields a b) as (_ & _ & Hb & Hs & _ & He & _) end.
+    repeat split; assumption.
+Qed.
+
 Lemma conversion_step s m d t :
   RegInv s -> conversion m = true -> token_by_minunit s d = Some t -> t_contract t <> 0 ->
-  tokens (step s m) = tokens s /\ minunits (step s m) = minunits s
+  token_by_minunit (step s m) d = Some t
   /\ supply_of (step s m) d + erc20_total (step s m) (t_contract t) = supply_of s d + erc20_total s (t_contract t).
 Proof.
   intros R Hc Ht Hc0. pose proof (reg_nodup s R) as Hnd. pose proof (reg_id s R) as I. pose proof (reg_ctr s R) as C.
-  destruct (step_cases s m) as [(s' & E & ->)|[_ ->]]; [|repeat split].
+  destruct (step_cases s m) as [(s' & E & ->)|[_ ->]]; [|split; [assumption|reflexivity]].
+  split.
+  { pose proof E as E'. apply exec_inv in E'. destruct E' as [_ E'].
+    apply (tracked_token_kept m s s' d t I (handle_tok_step s m s' I E')); try assumption.
+    destruct m; try discriminate Hc; simpl; tauto. }
   destruct m; try discriminate Hc; simpl in Hc.
+  - (* Deploy *)
+    apply exec_inv in E. destruct E as [_ E]. simpl in E. apply do_deploy_frame in E. destruct E as (Hs & He & _).
+    unfold supply_of, erc20_total. rewrite Hs, He. reflexivity.
   - (* ToErc20 *)
-    pose proof E as E'. apply exec_inv in E'. destruct E' as [_ E']. simpl in E'.
-    apply do_to_erc20_inv in E'. destruct E' as (t0' & s1 & s2 & _ & _ & _ & Hs & Hb & Hs').
-    assert (Hbo : bank_only s s2) by (eapply bank_only_trans; [eapply bank_send_only|eapply bank_burn_only]; eassumption).
-    apply bank_only_fields in Hbo. destruct Hbo as (Htk & Hmu & _).
-    split; [subst s'; simpl; assumption|]. split; [subst s'; simpl; assumption|].
     destruct (to_erc20_effect _ _ _ _ _ _ E Hnd) as (t0 & Ht0 & Hc00 & _ & Hsup & _ & _ & Htot).
     rewrite Hsup, Htot. unfold ind.
     destruct (eqb d denom) eqn:E1.
@@ -372,11 +417,6 @@ Proof.
       apply Z.eqb_eq in E2. exfalso. apply eqb_neq in E1. apply E1. symmetry.
       apply (RegInv_contract_inj s denom d t0 t R Ht0 Ht E2 Hc00).
   - (* FromErc20 *)
-    pose proof E as E'. apply exec_inv in E'. destruct E' as [_ E']. simpl in E'.
-    apply do_from_erc20_inv in E'. destruct E' as (t0' & s2 & _ & _ & _ & _ & Hm & Hp).
-    apply bank_mint_only, bank_only_fields in Hm. destruct Hm as (Htk1 & Hmu1 & _).
-    apply bank_pay_only, bank_only_fields in Hp. destruct Hp as (Htk2 & Hmu2 & _). simpl in Htk1, Hmu1.
-    split; [congruence|]. split; [congruence|].
     destruct (from_erc20_effect _ _ _ _ _ _ E Hnd) as (t0 & Ht0 & Hc00 & _ & _ & Hsup & _ & _ & Htot).
     rewrite Hsup, Htot. unfold ind.
     destruct (eqb d denom) eqn:E1.
@@ -385,13 +425,8 @@ Proof.
       apply Z.eqb_eq in E2. exfalso. apply eqb_neq in E1. apply E1. symmetry.
       apply (RegInv_contract_inj s denom d t0 t R Ht0 Ht E2 Hc00).
   - (* EvmMode *)
-    apply exec_inv in E. destruct E as [_ E]. simpl in E. inversion E. repeat split.
+    apply exec_inv in E. destruct E as [_ E]. simpl in E. inversion E. reflexivity.
   - (* HookToNative *)
-    pose proof E as E'. apply exec_inv in E'. destruct E' as [_ E']. simpl in E'.
-    apply do_hook_inv in E'. destruct E' as (sym0 & t0' & s2 & _ & _ & _ & _ & _ & _ & Hm & Hp).
-    apply bank_mint_only, bank_only_fields in Hm. destruct Hm as (Htk1 & Hmu1 & _).
-    apply bank_pay_only, bank_only_fields in Hp. destruct Hp as (Htk2 & Hmu2 & _). simpl in Htk1, Hmu1.
-    split; [congruence|]. split; [congruence|].
     destruct (hook_to_native_effect _ _ _ _ _ _ E Hnd) as (sym & t0 & Hci & Hg0 & _ & _ & Hsup & _ & _ & Htot).
     cbv zeta in Hsup. rewrite Hsup, Htot. unfold ind.
     destruct (token_by_minunit_spec s d t I Ht) as (sy & _ & G & _ & M).
@@ -405,6 +440,8 @@ Proof.
       assert (sym = sy).
       { apply (ctr_inj s C sym sy t0 t Hg0 G); congruence. }
       subst sy. rewrite Hg0 in G. inversion G; subst t0. symmetry. exact M.
+  - (* UpgradeErc20 *)
+    apply exec_inv in E. destruct E as [_ E]. simpl in E. apply do_upgrade_inv in E. subst s'. reflexivity.
 Qed.
 
 Lemma conversions_conserve_reachable ms : forall s d t,
@@ -414,8 +451,7 @@ Lemma conversions_conserve_reachable ms : forall s d t,
 Proof.
   induction ms as [|m ms IH]; intros s d t R Hc Ht Hc0; simpl; [split; [assumption|reflexivity]|].
   simpl in Hc. apply Bool.andb_true_iff in Hc. destruct Hc as [Hm Hms].
-  destruct (conversion_step s m d t R Hm Ht Hc0) as (Htk & Hmu & Heq).
-  assert (Ht' : token_by_minunit (step s m) d = Some t) by (rewrite (token_by_minunit_same _ _ _ Htk Hmu); assumption).
+  destruct (conversion_step s m d t R Hm Ht Hc0) as (Ht' & Heq).
   destruct (IH (step s m) d t (step_RegInv s m R) Hms Ht' Hc0) as [H1 H2].
   split; [assumption|]. rewrite H2. assumption.
 Qed.
